@@ -2461,7 +2461,7 @@ func (w *Writer) writeFunction(handle ir.FunctionHandle, fn *ir.Function) error 
 			if _, ok := w.module.Types[fn.Result.Type].Inner.(ir.ArrayType); ok {
 				// Array return type needs typedef
 				baseTypeName, arraySuffix := w.getTypeNameWithArraySuffix(fn.Result.Type)
-				retTypeName := fmt.Sprintf("ret_%s", name)
+				retTypeName := w.namer.call(fmt.Sprintf("ret_%s", name))
 				w.WriteLine("typedef %s %s%s;", baseTypeName, retTypeName, arraySuffix)
 				returnType = retTypeName
 			} else {
